@@ -951,7 +951,11 @@ fn get_u32(bytes: &[u8], pos: usize) -> u32 {
 pub fn mutate_bytes(rng: &mut Rng, m: &BytecodeModule, bytes: &mut Vec<u8>) -> &'static str {
     let nsec = m.sections.len();
     let file_len = bytes.len() as u32;
-    let choice = rng.below(100);
+    let mut choice = rng.below(100);
+    if bytes.len() < 24 + 12 * nsec + 4 {
+        // already truncated by an earlier mutation: only length changes make sense
+        choice = 80;
+    }
     let what: &'static str;
     if choice < 45 {
         // a located field (count, index, offset, size, kind byte) set to a hostile value
@@ -979,6 +983,9 @@ pub fn mutate_bytes(rng: &mut Rng, m: &BytecodeModule, bytes: &mut Vec<u8>) -> &
             return "locate-failed";
         };
         let sz = sizes(m);
+        if pos + width > bytes.len() {
+            return "locate-out-of-range";
+        }
         match width {
             1 => {
                 bytes[pos] = *rng.pick(&[0u8, 1, 2, 3, 4, 5, 6, 9, 10, 11, 12, 127, 128, 254, 255]);
@@ -1142,6 +1149,9 @@ pub fn mutate_bytes(rng: &mut Rng, m: &BytecodeModule, bytes: &mut Vec<u8>) -> &
         let sec_len = get_u32(bytes, 24 + 12 * ti + 8);
         let i = rng.below(t.offsets.len() as u64) as usize;
         let pos = sec_off + 4 + 4 * i;
+        if pos + 4 > bytes.len() {
+            return "none";
+        }
         let cur = get_u32(bytes, pos);
         let base = 4 + 4 * t.offsets.len() as u32;
         let neighbour = *rng.pick(&t.offsets);
@@ -1241,6 +1251,9 @@ pub fn refresh_offsets(m: &mut BytecodeModule) {
 /// Cyclic / self-referential / deeply nested types with constants that walk them.
 pub fn mutate_type_graph(rng: &mut Rng, m: &mut BytecodeModule) -> &'static str {
     let Some(n) = types_mut(m).map(|t| t.entries.len() as u32) else { return "none" };
+    if consts_mut(m).is_none() {
+        return "none";
+    }
     let what: &'static str;
     match rng.below(7) {
         0 => {
